@@ -132,6 +132,16 @@ theorem C05_no_result {α} (ops : List (Op α)) (h : NoExec ops) :
     · exact ih (fun o' ho' => h o' (by simp [ho'])) (sstep s0 x).2
         (by rw [sstep_res _ _ (h x (by simp)), hres]) o ho
 
+/-- **A failed execute leaves no result set**: whatever the cursor held, after an execute (or describe) that
+    raised, every fetch raises the no-result-set error until the next successful execute — a stale result is
+    never handed out. -/
+theorem C05_failed_execute_no_result {α} (c : Cur α) (ops : List (Op α)) (h : NoExec ops) :
+    ∀ o ∈ (run c (.fail :: ops)).1.tail, o = .noResult ∨ o = .unit := by
+  have hs := sim_run (step c .fail).2 { res? := none, pos := 0, arraysize := c.arraysize } ops ⟨rfl, rfl, rfl⟩
+  simp only [run, List.tail_cons]
+  rw [hs.1]
+  exact srun_no_result ops h _ rfl
+
 /-- **A new execute replaces the old result set completely**: whatever happened before, after
     `execute` the cursor answers like a cursor that has only ever seen the new result (arraysize kept). -/
 theorem C05_replace {α} (c : Cur α) (rs : List α) (ops : List (Op α)) :
